@@ -172,6 +172,9 @@ func noiseContainer(r *Rng, c *corev1.Container) {
 
 // podNoise randomises fields of the pod that the Pod Security Standards do not mention.
 func podNoise(r *Rng, p *corev1.Pod) {
+	if r.Chance(1, 3) {
+		wellKnownMeta(r, &p.ObjectMeta)
+	}
 	if r.Chance(1, 2) {
 		p.Labels = map[string]string{"app": "x", "kubernetes.io/os": pick(r, []string{"windows", "linux"})}
 		p.Spec.NodeName = "n1"
@@ -493,4 +496,30 @@ func versionSensitivePod(r *Rng, name string) *corev1.Pod {
 		}
 	}
 	return p
+}
+
+// wellKnownMeta: labels and annotations that other components attach to pods and that no property mentions; nothing a
+// verdict, a message or the dry run's order may depend on
+func wellKnownMeta(r *Rng, m *metav1.ObjectMeta) {
+	ann := map[string]string{"kubernetes.io/config.mirror": "2d0f2c7a", "kubernetes.io/config.source": "file", "kubernetes.io/config.seen": "2024-01-01T00:00:00Z",
+		"kubectl.kubernetes.io/default-container": "c", "cluster-autoscaler.kubernetes.io/safe-to-evict": "false", "kubectl.kubernetes.io/restartedAt": "2024-01-01T00:00:00Z",
+		"pod-security.kubernetes.io/enforce": "privileged", "pod-security.kubernetes.io/exempt": "true", "kubernetes.io/psp": "privileged"}
+	lab := map[string]string{"pod-template-hash": "5d4f8c7b9", "controller-revision-hash": "web-7c9f", "statefulset.kubernetes.io/pod-name": "web-0", "job-name": "j",
+		"app.kubernetes.io/name": "x", "pod-security.kubernetes.io/enforce": "privileged", "pod-security.kubernetes.io/enforce-version": "v1.0", "tier": "control-plane"}
+	for k, v := range ann {
+		if r.Chance(1, 6) {
+			if m.Annotations == nil {
+				m.Annotations = map[string]string{}
+			}
+			m.Annotations[k] = v
+		}
+	}
+	for k, v := range lab {
+		if r.Chance(1, 6) {
+			if m.Labels == nil {
+				m.Labels = map[string]string{}
+			}
+			m.Labels[k] = v
+		}
+	}
 }
